@@ -665,3 +665,59 @@ def rule_litfmt(ctx):
         res.inst("Lit", f["sp"]["file"], f["sp"]["line"], "ok", "%d boundary literals" % len(values))
     res.require_floor(1)
     return res
+
+
+def rule_fmtwrite(ctx):
+    """R-FMTWRITE: the formatter's output replaces the file it writes to"""
+    from .. import callgraph
+    from ..mir import Fn
+    fx = ctx.fx
+    res = RuleResult("R-FMTWRITE", "`scc fmt` writes the formatted text to a file (in place or with -o) so that the file holds exactly that text: every file "
+                     "opened for writing by the code reachable from the fmt command is opened with truncation (File::create, fs::write, or "
+                     "OpenOptions with truncate(true) / create_new(true) and without append): a shorter text must not leave the tail of the old "
+                     "contents behind, which would no longer parse")
+    entry = "scc::cli::fmt::exec"
+    fx.fn(entry)
+    cg = callgraph.get(ctx)
+    zone = cg.reachable([entry], crates={"scc", "driver"})
+    n = 0
+    for k in sorted(zone):
+        f = fx.fns[k]
+        if "{promoted" in k:
+            continue
+        fn = Fn(f)
+        names = [(bi, t) for bi, t in fn.calls()]
+        for bi, t in names:
+            c = t.get("callee") or ""
+            nm = t.get("callee_name")
+            if c.startswith("std::fs::") and nm == "create" and (t.get("callee_self") or "").endswith("File"):
+                n += 1
+                res.inst("%s@File::create#%d" % (k, bi), t["sp"]["file"], t["sp"]["line"], "ok", "truncates")
+            elif c.startswith("std::fs::") and nm == "write" and not t.get("callee_self"):
+                n += 1
+                res.inst("%s@fs::write#%d" % (k, bi), t["sp"]["file"], t["sp"]["line"], "ok", "replaces the contents")
+            elif c.startswith("std::fs::") and nm == "open" and "OpenOptions" in (t.get("callee_self") or ""):
+                opts = {}
+                for b2, t2 in names:
+                    if (t2.get("callee") or "").startswith("std::fs::") and "OpenOptions" in (t2.get("callee_self") or "") and t2.get("callee_name") in ("write", "truncate", "append", "create_new", "read", "create"):
+                        a = t2["args"][1] if len(t2["args"]) > 1 else {}
+                        val = a.get("val") if a.get("k") == "const" else None
+                        opts[t2["callee_name"]] = bool(val) if val is not None else None
+                writes = opts.get("write") is not False and ("write" in opts or "append" in opts)
+                if not writes:
+                    continue        # opened for reading
+                n += 1
+                ikey = "%s@OpenOptions::open#%d" % (k, bi)
+                if opts.get("append"):
+                    res.inst(ikey, t["sp"]["file"], t["sp"]["line"], "violation")
+                    res.violate(ikey, "the formatter opens its output file in append mode: the formatted text is added to the old contents", t["sp"]["file"], t["sp"]["line"])
+                elif opts.get("truncate") is True or opts.get("create_new") is True:
+                    res.inst(ikey, t["sp"]["file"], t["sp"]["line"], "ok", "truncate(true)")
+                else:
+                    res.inst(ikey, t["sp"]["file"], t["sp"]["line"], "violation")
+                    res.violate(ikey, "the formatter opens its output file for writing without truncating it (OpenOptions without truncate(true)): when the "
+                                "formatted text is shorter than the old contents, the old tail stays in the file and the result no longer parses",
+                                t["sp"]["file"], t["sp"]["line"])
+    if n < 1:
+        raise AnalysisError("R-FMTWRITE: no file is opened for writing by the code reachable from `scc fmt`")
+    return res
